@@ -148,6 +148,26 @@ impl ApproxModel for Sc {
 #[verifier::external_body] pub fn ulps_default_ne<T: ApproxModel>(a: &T, b: &T) -> (r: bool) ensures r == !T::ulps_eq_default_spec(*a, *b) { unimplemented!() }
 #[verifier::external_body] pub fn abs_diff_default_eq<T: ApproxModel>(a: &T, b: &T) -> (r: bool) ensures r == T::abs_diff_eq_default_spec(*a, *b) { unimplemented!() }
 #[verifier::external_body] pub fn abs_diff_default_ne<T: ApproxModel>(a: &T, b: &T) -> (r: bool) ensures r == !T::abs_diff_eq_default_spec(*a, *b) { unimplemented!() }
+impl<'a, T: ApproxModel> ApproxModel for &'a T {
+    open spec fn ulps_eq_default_spec(a: &'a T, b: &'a T) -> bool { T::ulps_eq_default_spec(*a, *b) }
+    open spec fn abs_diff_eq_default_spec(a: &'a T, b: &'a T) -> bool { T::abs_diff_eq_default_spec(*a, *b) }
+}
+// ---- the approx traits (external crate; declarations trusted) and their impls for the model scalar (A4)
+pub mod approx {
+    use super::*;
+    pub trait AbsDiffEq: Sized { type Epsilon; fn default_epsilon() -> Self::Epsilon; fn abs_diff_eq(&self, other: &Self, epsilon: Self::Epsilon) -> bool; }
+    pub trait RelativeEq: AbsDiffEq { fn default_max_relative() -> Self::Epsilon; fn relative_eq(&self, other: &Self, epsilon: Self::Epsilon, max_relative: Self::Epsilon) -> bool; }
+    pub trait UlpsEq: AbsDiffEq { fn default_max_ulps() -> u32; fn ulps_eq(&self, other: &Self, epsilon: Self::Epsilon, max_ulps: u32) -> bool; }
+    impl AbsDiffEq for Sc { type Epsilon = Sc;
+        #[verifier::external_body] fn default_epsilon() -> (r: Sc) ensures r == s_default_epsilon() { unimplemented!() }
+        #[verifier::external_body] fn abs_diff_eq(&self, other: &Sc, epsilon: Sc) -> (r: bool) ensures r == s_abs_diff_eq(*self, *other, epsilon) { unimplemented!() } }
+    impl RelativeEq for Sc {
+        #[verifier::external_body] fn default_max_relative() -> (r: Sc) ensures r == s_default_max_relative() { unimplemented!() }
+        #[verifier::external_body] fn relative_eq(&self, other: &Sc, epsilon: Sc, max_relative: Sc) -> (r: bool) ensures r == s_relative_eq(*self, *other, epsilon, max_relative) { unimplemented!() } }
+    impl UlpsEq for Sc {
+        #[verifier::external_body] fn default_max_ulps() -> (r: u32) ensures r == s_default_max_ulps() { unimplemented!() }
+        #[verifier::external_body] fn ulps_eq(&self, other: &Sc, epsilon: Sc, max_ulps: u32) -> (r: bool) ensures r == s_ulps_eq(*self, *other, epsilon, max_ulps) { unimplemented!() } }
+}
 // ---- rule R9: panic entry points
 #[verifier::external_body] pub fn vpanic() -> ! requires false { loop {} }
 #[verifier::external_body] pub fn diverge() -> ! ensures false { loop {} }
